@@ -62,6 +62,16 @@ def gen(ctx):
                 out.append((True, b"", ch * (n + extra)))
                 out.append((True, b"x" * (total - n * width), ch * n))
                 out.append((False, b"", ch * (n + extra)))
+    # text that has more than one Unicode spelling (decomposed letters, Hangul jamo, compatibility forms, ligatures): a key is the bytes of the text as
+    # given - no normalisation, no case folding - alone, around the length limit (a decomposed key of 251/252 bytes composes to <= 250) and behind a prefix
+    for k in ("e\u0301", "A\u030a", "\u1100\u1161\u11a8", "\ufb01", "\u2126", "\u00c5", "\u212b", "n\u0303o", "\u0958", "\u1e9b\u0323", "\u0130", "\u00df", "\uff21"):
+        for au in (False, True):
+            out.append((au, b"", k))
+            out.append((au, b"ns:", k + "x"))
+    for total in (249, 250, 251, 252, 253):
+        out.append((True, b"", "k" * (total - 3) + "e\u0301"))
+        out.append((True, b"", "e\u0301" * (total // 3) + "k" * (total % 3)))
+        out.append((True, b"p" * (total - 6), "A\u030a" * 2))
     # keys that start with (or equal) the prefix: the prefix must still be added
     for pfx in (b"ns:", b"p", b"user:"):
         for k in (pfx, pfx + b"x", pfx + pfx, pfx.decode(), pfx.decode() + "42", b"x" + pfx):
